@@ -240,10 +240,29 @@ def real_signature(f):
     return (tuple(sig), kinds)
 
 
+def _source_dict(root):
+    """(source dictionary handed to the constructor, graph_dict flag) for dictionary-built roots, else None."""
+    _, route, arg, U = root
+    if route in ("graph", "graph_hidden"):
+        return _label_dict_for([tuple(e) for e in arg], route == "graph_hidden"), True
+    if route == "out":
+        return M.from_label_dict(_label_dict_for([tuple(e) for e in arg], False)).out_dict(), False
+    return None
+
+
 def run_history(hist, rich):
     root = hist[0]
     f, model, U = build_root(root)
     retained = []
+    src = _source_dict(root)
+    if src is not None:
+        # the caller keeps his dictionary and builds TWO automata from it; the history edits the first one only
+        from geometry_tools.automata import fsa as _fsa
+        d, flag = src
+        snapshot = copy.deepcopy(d)
+        f = _fsa.FSA(d, start_vertices=[0], graph_dict=flag)
+        twin = _fsa.FSA(d, start_vertices=[0], graph_dict=flag)
+        retained.append((twin, model, "second automaton built from the same dictionary"))
     for op in hist[1:]:
         f, model = apply_op(f, model, op, retained)
     v = check_views(f, model)
@@ -251,6 +270,8 @@ def run_history(hist, rich):
         for x in check_views(g, gm, who):
             x["key"] = x["key"].replace("views/", "views-retained/")
             v.append(x)
+    if src is not None and not v and d != snapshot:
+        v.append({"key": "views-retained/source-dictionary-modified", "msg": "the dictionary the automaton was built from was changed by the history: %r, was %r" % (d, snapshot)})
     key = repr((model.key(), real_signature(f) if not v else None))
     ops = [] if v else enabled_ops(model, U, rich)
     return {"v": v, "key": key, "ops": ops, "t": len(hist),
